@@ -411,8 +411,9 @@ func (interp *Interpreter) parse(src, name string, inc bool) (node ast.Node, err
 		if err != nil {
 			return nil, initialError
 		}
-		// statements led by a declaration are evaluated as any other statements
-		inFunc = tok != token.FUNC
+		// statements led by a declaration or a function literal are evaluated
+		// as any other statements
+		inFunc = true
 	}
 
 	if inFunc {
